@@ -95,6 +95,18 @@ func c14pure_MODELNAME(N, T int) {
 	other.Run(oi, other.InitialiseStates(1), data.NewArray3DFloat64(1, 1, 2))
 	oD, sD := run(w, inputs, T)
 	same(oA, oD, sA, sD, T, "identical-after-another-model-ran")
+	// the same object is run on differently shaped data in between: one input block shared by all
+	// cells and a longer series (nothing about an earlier call's layout may survive in the object)
+	inX := data.NewArray3DFloat64(1, nI, T+1)
+	for i := 0; i < nI; i++ {
+		for t := 0; t < T+1; t++ {
+			inX.Set3(0, i, t, vsym.Float64("otherlayout"))
+		}
+	}
+	wrConstrainData(name, inX, states0)
+	w.m.Run(inX, wrCopy2(states0), data.NewArray3DFloat64(N, nO, T+1))
+	oG, sG := run(w, inputs, T)
+	same(oA, oG, sA, sG, T, "identical-after-a-run-on-differently-shaped-data")
 	// causality
 	for k := 0; k < T-1; k++ {
 		in2 := wrCopy3(inputs)
